@@ -191,7 +191,7 @@ def judgeTsParse (id : String) (fmt : TsFormat) (text : Bytes) (res dt http epoc
     | .dateTime =>
       -- an instant outside the years 0000 … 9999 of UTC has no text in either written form (`Z` / `GMT`, four-digit
       -- year): the type cannot carry it through text, and it is outside the property's quantifier (years 1 … 9999).
-      -- The specification is silent on such a text (the code refuses it since 62f4e8c; the model comparison and the
+      -- The specification is silent on such a text (the code refuses it since b7ef08a; the model comparison and the
       -- `ts-parsed-unwritable` oracle below still apply)
       (DtoSpec.readRfc3339 text).bind fun (u, n, o) =>
         if -62167219200 ≤ u && u ≤ 253402300799 then some (u, n, some o) else none
@@ -221,7 +221,7 @@ def judgeTsParse (id : String) (fmt : TsFormat) (text : Bytes) (res dt http epoc
     | none => none
   -- "formatting then parsing is the identity" presupposes that a value `parse` hands out can be formatted at all:
   -- an accepted text whose value `Timestamp::format` refuses is what made `fmt_timestamp(..).unwrap()` panic
-  -- (finding F-xml-7, repaired by 62f4e8c) — judged on the implementation's answers alone
+  -- (finding F-xml-7, repaired by b7ef08a) — judged on the implementation's answers alone
   let sf := sf.orElse fun _ => match impl with
     | some t =>
       if dt = "!" || http = "!" || epoch = "!" then
